@@ -329,6 +329,7 @@ func checkC13(c *Ctx) {
 		seenForm[fld] = true
 		switch fld {
 		case "app":
+			// (lowering one side only is rejected by C13.case-fold-symmetric)
 			okA := calleeName(cl) == "strings.ToLower" && cl.Call.Args[0] == ssa.Value(DO.Params[3])
 			// must be in the default branch: both prefix tests known false
 			nf := 0
@@ -360,6 +361,27 @@ func checkC13(c *Ctx) {
 			r.Check(pfx == want.prefix && guard, "C13.if-forms", key, p.IPos(in), fmt.Sprintf("TrimPrefix(val,%q) == p.%s under HasPrefix(val,%q)", want.prefix, fld, want.prefix),
 				fmt.Sprintf("$if %s form compares p.%s with TrimPrefix(val,%q) (guarded by the matching HasPrefix: %v)", want.prefix, fld, pfx, guard))
 		}
+	})
+	// the application form may also be written with strings.EqualFold(val, p.app)
+	eachInstr(DO, func(in ssa.Instruction) {
+		cl, ok := in.(*ssa.Call)
+		if !ok || calleeName(cl) != "strings.EqualFold" || !kwIs(in, "$if") {
+			return
+		}
+		a0, a1 := cl.Call.Args[0], cl.Call.Args[1]
+		isVal := func(v ssa.Value) bool { return v == ssa.Value(DO.Params[3]) }
+		isApp := func(v ssa.Value) bool { return isFieldLoad(v, parserT, "app") }
+		if !((isVal(a0) && isApp(a1)) || (isVal(a1) && isApp(a0))) {
+			return
+		}
+		seenForm["app"] = true
+		nf := 0
+		for f := range factsAt(bfDO, in) {
+			if hc, ok := f.Cond.(*ssa.Call); ok && calleeName(hc) == "strings.HasPrefix" && !f.Val {
+				nf++
+			}
+		}
+		r.Check(nf >= 2, "C13.if-forms", fnName(DO)+":$if.app", p.IPos(in), "application form: EqualFold(val, p.app) when no prefix matched", "the application-name form of $if is not in the default branch (after both prefix tests failed)")
 	})
 	for _, fld := range []string{"mode", "term", "app"} {
 		if !seenForm[fld] {
@@ -591,6 +613,9 @@ func checkC13(c *Ctx) {
 		})
 		r.Check(good && n == 1, "C13.options", opt, p.Pos(f.Pos()), "stores its argument into Parser."+fld, opt+" does not store its argument into Parser."+fld)
 	}
+	checkHexTables(c, "C13.hex-tables")
+	checkC13OptionsOrder(c)
+	checkC13CaseFold(c)
 }
 
 // lookupConstInt returns the integer value of a package-level constant (-1 if absent).
